@@ -143,7 +143,7 @@ Proof. unfold release. destruct (flock s) as [q|] eqn:E; auto. destruct (Nat.eqb
 
 Definition fixed_pc (c : pc) : bool :=
   match c with
-  | DOpen _ | DWrite _ _ | DReplace _ | FList1 | FAcquire | FExists _ | FTOpen _ | FTWrite _ _
+  | DOpen _ | DWrite _ _ | DReplace _ | FList1 | FEnter | FAcquire | FExists _ | FTOpen _ | FTWrite _ _
   | FReplace _ | FRelease | FCheck | FRead | FReadInstalled | XEnter | XAcquire | XBody | XExit
   | Done _ | Dead => true
   | _ => false
@@ -307,7 +307,7 @@ Lemma pstep_fixed c p s r s' r' :
   vers_good c (files_of s) -> Jfix c p s r -> pstep c p s r = (s', r') ->
   vers_good c (files_of s') /\ Jfix c p s' r'.
 Proof.
-  intros HA (J1 & J2 & J3 & J4 & J5) H. unfold pstep, after_chunk in H.
+  intros HA (J1 & J2 & J3 & J4 & J5) H. unfold pstep, after_chunk, lookup_fixed in H.
   destruct (pc_of r) eqn:Epc; try discriminate J1; cbn [holding tmp_ok pop_ok] in J2, J4, J5;
     try match type of J4 with _ /\ _ => destruct J4 as [J4 J4'] end;
     unfold cur_content in H; try rewrite J4 in H;
@@ -439,14 +439,14 @@ Proof. intro Hk. apply fixed_no_torn_visible. apply download_kinds_fixed. exact 
 
 Definition lf_pc (x : pc) : bool :=
   match x with
-  | FList1 | FAcquire | FExists _ | FTOpen _ | FTWrite _ _ | FReplace _ | FRelease
+  | FList1 | FEnter | FAcquire | FExists _ | FTOpen _ | FTWrite _ _ | FReplace _ | FRelease
   | FCheck | FRead | FReadInstalled | Done OLoaded | Dead => true
   | _ => false
   end.
 
 Lemma pstep_kind c p s r : kind_of (snd (pstep c p s r)) = kind_of r.
 Proof.
-  destruct r as [k x tr po ce tt]. unfold pstep, after_chunk. simp_sh. destruct x;
+  destruct r as [k x tr po ce tt]. unfold pstep, after_chunk, lookup_fixed. simp_sh. destruct x;
     repeat match goal with
            | |- context [if ?b then _ else _] => destruct b
            | |- context [match ?x with _ => _ end] => destruct x
@@ -458,7 +458,7 @@ Lemma pstep_lf c p s r s' r' v :
   lf_pc (pc_of r) = true -> pstep c p s r = (s', r') -> lf_pc (pc_of r') = true.
 Proof.
   intros HA Hk Hv Hl H. apply Nat.ltb_lt in Hv.
-  unfold pstep, after_chunk in H. rewrite Hk in H. cbn [target] in H. rewrite ?Hv in H.
+  unfold pstep, after_chunk, lookup_fixed in H. rewrite Hk in H. cbn [target] in H. rewrite ?Hv in H.
   destruct (pc_of r) eqn:Epc; try discriminate Hl.
   all: try (case_step H; simp_sh; rewrite ?Epc; reflexivity).
   - (* FRead *)
@@ -660,7 +660,7 @@ Lemma pstep_cur c p s r s' r' :
   | _ => files_of s' = files_of s /\ forall f i, pc_of r' <> PWrite f i
   end.
 Proof.
-  intros (J1 & J2 & J3 & J4) H. unfold pstep, after_chunk in H.
+  intros (J1 & J2 & J3 & J4) H. unfold pstep, after_chunk, lookup_fixed in H.
   destruct (pc_of r) eqn:Epc; try discriminate J1; cbn [pop_cur] in J3.
   all: try (case_step H; unfold Jcur; simp_sh; rewrite ?Epc;
             (split; [split; [reflexivity| split; [intros ? ? ?; discriminate|]]
@@ -980,7 +980,7 @@ Qed.
 (* repaired protocol: a populator is killed while holding the lock in the middle of a copy,
    a second populator and a loader interleave; a refresher competes for the lock *)
 Definition ev_fixed : list event :=
-  runs 0 5 ++ [Run 1; Run 1; Run 2; Run 3; Run 3; Crash 0] ++
+  [Run 0; Run 1; Run 2] ++ runs 0 5 ++ [Run 1; Run 1; Run 2; Run 3; Run 3; Crash 0] ++
   concat (repeat [Run 1; Run 2; Run 3] 20).
 
 Lemma fixed_example :
@@ -997,7 +997,8 @@ Definition per_file (c : cfg) : nat := nchunks c + 4.
 (* an upper bound on the number of own steps left *)
 Definition fmeasure (c : cfg) (r : proc) : nat :=
   match pc_of r with
-  | FList1 => 8 + nfiles c * per_file c + max_tries c
+  | FList1 => 9 + nfiles c * per_file c + max_tries c
+  | FEnter => 8 + nfiles c * per_file c + max_tries c
   | FAcquire => 7 + nfiles c * per_file c + (max_tries c - tries r)
   | FExists f => 5 + (nfiles c - f) * per_file c
   | FTOpen f => 5 + (nfiles c - S f) * per_file c + nchunks c + 3
@@ -1010,7 +1011,7 @@ Definition fmeasure (c : cfg) (r : proc) : nat :=
   | _ => 0
   end.
 
-Definition load_bound (c : cfg) : nat := 8 + nfiles c * per_file c + max_tries c.
+Definition load_bound (c : cfg) : nat := 9 + nfiles c * per_file c + max_tries c.
 
 Lemma mul_step N f K : f < N -> (N - f) * K = K + (N - S f) * K.
 Proof. intro H. replace (N - f) with (S (N - S f)) by lia. simpl. reflexivity. Qed.
@@ -1019,7 +1020,7 @@ Lemma fmeasure_decr c p s r s' r' :
   lf_pc (pc_of r) = true -> 0 < fmeasure c r -> pstep c p s r = (s', r') ->
   fmeasure c r' < fmeasure c r.
 Proof.
-  intros Hl Hm H. unfold pstep, after_chunk in H. unfold fmeasure in *.
+  intros Hl Hm H. unfold pstep, after_chunk, lookup_fixed in H. unfold fmeasure in *.
   destruct (pc_of r) eqn:Epc; try discriminate Hl; try lia;
     case_step H; simp_sh; rewrite ?Epc; unfold per_file in *;
     repeat match goal with
@@ -1044,7 +1045,7 @@ Qed.
 
 Lemma pstep_not_dead c p s r : pc_of r <> Dead -> pc_of (snd (pstep c p s r)) <> Dead.
 Proof.
-  intro Hd. destruct r as [k x tr po ce tt]. unfold pstep, after_chunk. simp_sh.
+  intro Hd. destruct r as [k x tr po ce tt]. unfold pstep, after_chunk, lookup_fixed. simp_sh.
   destruct x; try contradiction;
     repeat match goal with
            | |- context [if ?b then _ else _] => destruct b
